@@ -277,6 +277,20 @@ def check_bound(ctx, case):
             ctx.check(failed(x) or getattr(x, attr) == v, "bounds/%s/in-range" % kind, lambda: "%s %s=%r not stored" % (how, kind, v))
         else:
             ctx.raises("bounds/%s" % kind, (ValueError,), f)
+    # one attribute in the dynamics dict, the other as a keyword, in one call (both orders): each is judged on its own
+    other, ov = ("channel", 5) if kind == "velocity" else ("velocity", 77)
+    both = [("constructor-dict+keyword", lambda: Note("D", 5, {kind: v}, **{other: ov})), ("constructor-keyword+dict", lambda: Note("D", 5, {other: ov}, **{kind: v})),
+            ("set_note-dict+keyword", lambda: Note("A", 2).set_note("D", 5, {kind: v}, **{other: ov})),
+            ("set_note-keyword+dict", lambda: Note("A", 2).set_note("D", 5, {other: ov}, **{kind: v}))]
+    for how, f in both:
+        if inside:
+            x = ctx.ok("bounds/%s/in-range" % kind, f)
+            if not failed(x):
+                x = x if isinstance(x, Note) else None
+            ctx.check(x is None or failed(x) or (getattr(x, attr) == v and getattr(x, other) == ov), "bounds/%s/dict-and-keyword" % kind,
+                      lambda: "%s %s=%r %s=%r gives %s=%r %s=%r" % (how, kind, v, other, ov, kind, getattr(x, attr), other, getattr(x, other)))
+        else:
+            ctx.raises("bounds/%s" % kind, (ValueError,), f)
     # a note made from an integer (or copied from another note) together with such a value: an out-of-range value is either
     # rejected or not taken over - a note carrying it must never come out
     if not inside:
